@@ -227,6 +227,11 @@ class ExpressionParser:
     def parse_mult(self) -> MathExpression:
         self.check(_FIRST_EXP, True)
         exp = self.parse_exponent()
+        # A quotient ends at its divisor: "8 / 4 * 2" is (8 / 4) * 2, not 8 / (4 * 2).
+        # Products nest to the right: "a * b * c" is a * (b * c). The left factors are
+        # collected here and folded after the loop, so that a long flat chain does not
+        # recurse once per operator.
+        factors: List[MathExpression] = []
         while self.check(_IS_MULT):
             opType = self.current_token.type
             opValue = self.current_token.value
@@ -234,12 +239,7 @@ class ExpressionParser:
             expected = self.check(_FIRST_EXP)
             right = None
             if expected:
-                # A quotient ends at its divisor: "8 / 4 * 2" is (8 / 4) * 2, not
-                # 8 / (4 * 2). Products keep nesting to the right.
-                if opType == TOKEN_TYPES.Divide:
-                    right = self.parse_exponent()
-                else:
-                    right = self.parse_mult()
+                right = self.parse_exponent()
 
             if not expected or right is None:
                 assert self._all_tokens is not None
@@ -250,13 +250,16 @@ class ExpressionParser:
                 )
 
             if opType == TOKEN_TYPES.Multiply:
-                exp = MultiplyExpression(exp, right)
+                factors.append(exp)
+                exp = right
             elif opType == TOKEN_TYPES.Divide:
                 exp = DivideExpression(exp, right)
             else:  # pragma: nocover
                 raise UnexpectedBehavior(
                     "Expected mult or divide, got: {}".format(opValue)
                 )
+        while factors:
+            exp = MultiplyExpression(factors.pop(), exp)
         return exp
 
     def parse_exponent(self) -> MathExpression:
